@@ -66,6 +66,10 @@ def pretty_callspec(value, ctx):
         return PP.pretty_call(ctx, value.fn, *value.args, **dict(value.kwargs))
     if value.style == 'alt-list':
         return PP.pretty_call_alt(ctx, value.fn, args=tuple(value.args), kwargs=list(value.kwargs))
+    if value.style == 'alt-iter':
+        # a one-shot iterator of pairs (what the bundled namedtuple / time printers pass)
+        return PP.pretty_call_alt(ctx, value.fn, args=tuple(value.args),
+                                  kwargs=((k, v) for k, v in list(value.kwargs)))
     if value.style == 'alt-odict':
         return PP.pretty_call_alt(ctx, value.fn, args=tuple(value.args), kwargs=OrderedDict(value.kwargs))
     return PP.pretty_call_alt(ctx, value.fn, args=tuple(value.args), kwargs=dict(value.kwargs))
@@ -465,7 +469,7 @@ def cases(tier, seed):
     from vf import dcls
     out = []
     n = 0
-    styles = ['call', 'alt-list', 'alt-odict', 'alt-dict']
+    styles = ['call', 'alt-list', 'alt-odict', 'alt-dict', 'alt-iter']
     for pool in ARG_POOLS:
         for si, style in enumerate(styles):
             for ci, cname in enumerate(CALLABLES):
